@@ -100,12 +100,13 @@ theorem runN_skips (F : TOps) (clk : Nat → Nat) (k : Nat) :
 
 /-! ### unwinding -/
 
-theorem unwind_spec (ac : Bool) (stack : List Frame) :
+theorem unwind_spec (kind : ErrKind) (ac : Bool) (stack : List Frame) :
     (∀ h rest, unwind ac stack = (some h, rest) →
-        deliverFlat ac stack = .caught h rest.length ∧ rest.length ≤ stack.length) ∧
-    (unwind ac stack = (none, []) → deliverFlat ac stack = .escaped) ∧
+        deliverFlat kind ac stack = .caught h rest.length ∧ rest.length ≤ stack.length) ∧
+    (unwind ac stack = (none, []) → deliverFlat kind ac stack = .escaped) ∧
     (∀ f below, unwind ac stack = (none, f :: below) →
-        deliverFlat ac stack = deliverFlat true below ∧ below.length < stack.length) := by
+        deliverFlat kind ac stack = deliverFlat kind kind.allowCatch below ∧
+          below.length < stack.length) := by
   induction stack with
   | nil => simp [unwind, deliverFlat]
   | cons f rest ih =>
@@ -113,12 +114,13 @@ theorem unwind_spec (ac : Bool) (stack : List Frame) :
       simp [unwind, deliverFlat, hc, hb] <;> grind
 
 theorem deliver_eq_flat (fuel : Nat) :
-    ∀ (ac : Bool) (stack : List Frame), stack.length < fuel → deliver fuel ac stack = deliverFlat ac stack := by
+    ∀ (kind : ErrKind) (ac : Bool) (stack : List Frame), stack.length < fuel →
+      deliver fuel kind ac stack = deliverFlat kind ac stack := by
   induction fuel with
-  | zero => intro ac stack h; omega
+  | zero => intro kind ac stack h; omega
   | succ fuel ih =>
-    intro ac stack hlen
-    have hs := unwind_spec ac stack
+    intro kind ac stack hlen
+    have hs := unwind_spec kind ac stack
     unfold deliver
     split
     · rename_i h rest heq
@@ -131,41 +133,31 @@ theorem deliver_eq_flat (fuel : Nat) :
     · rename_i f below _ heq
       have := hs.2.2 f below heq
       rw [this.1]
-      exact ih true below (by omega)
+      exact ih kind kind.allowCatch below (by omega)
 
-theorem deliverTimeout_flat (stack : List Frame) : deliverTimeout stack = deliverFlat false stack :=
-  deliver_eq_flat _ _ _ (by omega)
+theorem deliverTimeout_flat (stack : List Frame) : deliverTimeout stack = deliverFlat .timeout false stack :=
+  deliver_eq_flat _ _ _ _ (by omega)
 
-theorem deliverError_flat (stack : List Frame) : deliverError stack = deliverFlat true stack :=
-  deliver_eq_flat _ _ _ (by omega)
+theorem deliverError_flat (stack : List Frame) : deliverError stack = deliverFlat .other true stack :=
+  deliver_eq_flat _ _ _ _ (by omega)
 
-theorem flat_false_below (stack : List Frame) :
-    deliverFlat false stack = deliverFlat true (belowTopEntry stack) := by
+/-- a timeout passes every frame of every entry -/
+theorem flat_timeout_escaped (stack : List Frame) : deliverFlat .timeout false stack = .escaped := by
   induction stack with
-  | nil => simp [deliverFlat, belowTopEntry]
-  | cons f rest ih =>
-    cases hb : f.barrier <;> simp [deliverFlat, belowTopEntry, hb, ih]
+  | nil => simp [deliverFlat]
+  | cons f rest ih => cases hb : f.barrier <;> simp [deliverFlat, hb, ErrKind.allowCatch, ih]
 
 theorem flat_true_handler (stack : List Frame) :
-    (∀ h, firstHandler stack = some h → ∃ n, deliverFlat true stack = .caught h n ∧ 0 < n ∧ n ≤ stack.length) ∧
-    (firstHandler stack = none → deliverFlat true stack = .escaped) := by
+    (∀ h, firstHandler stack = some h →
+      ∃ n, deliverFlat .other true stack = .caught h n ∧ 0 < n ∧ n ≤ stack.length) ∧
+    (firstHandler stack = none → deliverFlat .other true stack = .escaped) := by
   induction stack with
   | nil => simp [firstHandler, deliverFlat]
   | cons f rest ih =>
     cases hc : f.catches with
     | nil =>
-      cases hb : f.barrier <;> simp [firstHandler, deliverFlat, hc, hb] <;> grind
+      cases hb : f.barrier <;> simp [firstHandler, deliverFlat, hc, hb, ErrKind.allowCatch] <;> grind
     | cons h hs => simp [firstHandler, deliverFlat, hc]
-
-theorem belowTopEntry_length (stack : List Frame) : (belowTopEntry stack).length ≤ stack.length := by
-  induction stack with
-  | nil => simp [belowTopEntry]
-  | cons f rest ih => cases hb : f.barrier <;> simp [belowTopEntry, hb] <;> omega
-
-theorem topEntry_append_below (stack : List Frame) : topEntry stack ++ belowTopEntry stack = stack := by
-  induction stack with
-  | nil => simp [topEntry, belowTopEntry]
-  | cons f rest ih => cases hb : f.barrier <;> simp [topEntry, belowTopEntry, hb, ih]
 
 /-! ### arithmetic behind `bounded_slack` -/
 
